@@ -633,9 +633,11 @@ func parent(ch *Check, tier, only string, seed int64, listFailing bool) int {
 	m.Outcomes = map[string]int64{}
 	m.Counters = map[string]int64{}
 	infra := []string{}
+	restarts := 0
 	for i := range results {
 		r := &results[i]
 		m.Violations = append(m.Violations, r.crashes...)
+		restarts += len(r.carried)
 		for _, cr := range r.carried {
 			m.Evaluations += cr.Evaluations
 			m.Nontrivial += cr.Nontrivial
@@ -796,6 +798,9 @@ func parent(ch *Check, tier, only string, seed int64, listFailing bool) int {
 	}
 	if len(m.Outcomes) > 0 {
 		cov["distinct_outcomes"] = m.Outcomes
+	}
+	if ch.MarkCases {
+		cov["worker_restarts_after_crash_or_hang"] = restarts
 	}
 	if len(m.Counters) > 0 {
 		cov["counters"] = m.Counters
